@@ -13,13 +13,15 @@ Inductive vtree :=
      (resources : list (string * (rtype * option Q)))
      (ports : list (string * option Q))
      (children : list vtree)
-     (ok : bool).   (* false: the reading demands an error (e.g. a resource type a repetition cannot carry) *)
+     (ok : bool)    (* false: the reading demands an error (e.g. a resource type a repetition cannot carry) *)
+     (weight : option Q).  (* sum of the repetition sequence over i < count (1 when the node is not repeated) *)
 
-Definition vt_name t := match t with VT n _ _ _ _ => n end.
-Definition vt_resources t := match t with VT _ r _ _ _ => r end.
-Definition vt_ports t := match t with VT _ _ p _ _ => p end.
-Definition vt_children t := match t with VT _ _ _ c _ => c end.
-Definition vt_ok t := match t with VT _ _ _ _ o => o end.
+Definition vt_name t := match t with VT n _ _ _ _ _ => n end.
+Definition vt_resources t := match t with VT _ r _ _ _ _ => r end.
+Definition vt_ports t := match t with VT _ _ p _ _ _ => p end.
+Definition vt_children t := match t with VT _ _ _ c _ _ => c end.
+Definition vt_ok t := match t with VT _ _ _ _ o _ => o end.
+Definition vt_weight t := match t with VT _ _ _ _ _ w => w end.
 
 Definition scope := list (string * option Q).
 
@@ -105,7 +107,7 @@ Section Den.
            (W : list (string * option Q))                (* sizes of the incoming wires, per input/through port *)
     : vtree :=
     match fuel with
-    | O => VT (rname r) [] [] [] false
+    | O => VT (rname r) [] [] [] false None
     | S f =>
         match r with
         | Routine name type ips locals links ports resources conns rep constraints children =>
@@ -233,7 +235,11 @@ Section Den.
                                            else ev2 (p_size p)
                                | sz => ev2 sz
                                end)) (filter is_output ports) in
-            VT name (fst res_ok) (my_in ++ outs)%list kids (snd res_ok && forallb vt_ok kids)
+            let weight := match rep with
+                          | None => Some 1
+                          | Some rp => rep_sum_v (rep_seq rp) ev2 ev2_upd (Some 1) (rep_count rp)
+                          end in
+            VT name (fst res_ok) (my_in ++ outs)%list kids (snd res_ok && forallb vt_ok kids) weight
         end
     end.
 End Den.
